@@ -1642,8 +1642,13 @@ impl<'a, const C: usize, const R: usize, T: 'a + Copy + std::fmt::Debug> Layout<
                 // not. As another example, tap-dance and tap-hold will repeat the inner action and
                 // not the outer (tap-dance|hold) but multi will repeat the entire outer multi
                 // action.
-                if let Some(ac) = self.rpt_action {
+                // Take the action out while it runs: if it contains a repeat action itself (e.g.
+                // `(multi rpt-any a)`), the inner repeat must not re-enter it without bound.
+                if let Some(ac) = self.rpt_action.take() {
                     self.do_action(ac, coord, delay, is_oneshot, &mut std::iter::empty());
+                    if self.rpt_action.is_none() {
+                        self.rpt_action = Some(ac);
+                    }
                 }
             }
             HoldTap(HoldTapAction {
